@@ -189,7 +189,7 @@ func migrateSuite(seed uint64, tier, outDir string) (*core.Result, error) {
 			return nil, err
 		}
 	}
-	res.Required = append(res.Required, "round.migrate", "round.migrate0", "round.migrated", "round.migrated-to-empty-list", "round.samegca", "round.ban-then-move",
+	res.Required = append(res.Required, "round.migrate", "round.migrate0", "round.migrated", "round.migrated-to-empty-list", "order.known-servers", "order.ban-then-older-entry", "round.samegca", "round.ban-then-move",
 		"attempt.badinner", "attempt.badinner-known", "attempt.badsrvsig-known", "attempt.foreign-order", "attempt.selfsigned", "attempt.badmig", "attempt.badsrvsig", "attempt.migrate", "attempt.migrate0", "attempt.samegca",
 		"attempt.ban-then-move", "hist.load", "hist.load.refused", "hist.newclient-crosscheck")
 	res.Rule = "client histories over scripted servers: list updates (new, ban, un-ban attempt, changed ports), migration orders (valid with 1..4 servers and duplicate keys, none, foreign device, bad outer signature, inner entry signed by the old GCA, order naming the current GCA), chains of two migrations, restarts after every adoption (hook loader and real NewClient); non-trivial = at least one accepted reply"
